@@ -290,6 +290,18 @@ func (e *auxExpect) auxRun(which int, rounds int) string {
 					return fmt.Sprintf("FilterFlag(%d).String() = %q, alone %q", f, s, e.flagText[f])
 				}
 			}
+			// combined values that nobody in this process has converted before (a conversion must not
+			// depend on, or leave behind, anything shared): known bits plus fresh unknown bits
+			for j := 0; j < 4; j++ {
+				fresh := uint32(1+(which*100003+r*7+j)%0x3fffff) << 2
+				for low := uint32(0); low < 4; low++ {
+					f := fresh | low
+					want := []string{"unknown", "tsync|unknown", "log|unknown", "tsync|log|unknown"}[low]
+					if s := seccomp.FilterFlag(f).String(); s != want {
+						return fmt.Sprintf("FilterFlag(%#x).String() = %q on its first conversion in this process, expected %q", f, s, want)
+					}
+				}
+			}
 			for i, s := range e.unpackIn {
 				a := seccomp.Action(0xdeadbeef)
 				got := "ERR"
